@@ -403,9 +403,13 @@ class FakeExecutor:
 
 
 class FileShim:
+    """file object returned by the replaced open(): read() is a yield point; for a written file the moment the
+    buffered bytes reach the file (flush() with pending data, else close()) is a yield point"""
+
     def __init__(self, f, mode):
         self._f = f
         self._w = "w" in mode or "a" in mode or "+" in mode
+        self._pending = False
 
     def __enter__(self):
         return self
@@ -418,10 +422,21 @@ class FileShim:
         SCHED.yield_point("read")
         return self._f.read(*a)
 
+    def write(self, data):
+        self._pending = True
+        return self._f.write(data)
+
+    def flush(self):
+        if self._w and self._pending:
+            SCHED.yield_point("close")
+            self._pending = False
+        return self._f.flush()
+
     def close(self):
         if not self._f.closed:
-            if self._w:
+            if self._w and self._pending:
                 SCHED.yield_point("close")
+                self._pending = False
             self._f.close()
 
     def __getattr__(self, name):
